@@ -1,6 +1,7 @@
 import QF.Props.C09Equals
 import QF.Props.C09ViewsGen
 import QF.Props.C09StringGen
+import QF.Props.C09TypesGen
 import QF.Props.C13WriterGen
 import QF.Props.C14WriterGen
 import QF.Props.C19SqlWriteGen
@@ -15,8 +16,8 @@ code regenerated from today's source into one statement per stored frame:
 * `gen_observations_agree`  — `WF P → Observed P`: a field per observer, every one of them reporting `P.logical`:
     - `len`     `QFrame.Len`            (C08Guards.gen_len_semantics)        = `L.n` (−1 on a frame with an error)
     - `names`   `QFrame.ColumnNames`    (C19SqlWriteGen.gen_columnnames_semantics) = `L.names`
-    - `types`   `Column.DataType()` of every column in order (C09StringGen.gen_string_canon: `Gen.dataTypeNames`) = the
-                names of `L`'s column types in order. (The loop of `QFrame.ColumnTypes` itself is not regenerated.)
+    - `types`   `QFrame.ColumnTypes` (C09TypesGen.gen_columntypes_semantics: the loop regenerated from qframe.go, run with
+                `Column.DataType()` of today's column packages, `Gen.dataTypeNames`) = the names of `L`'s column types in order
     - `views`   `c.View(index).ItemAt(i)` / `Len()` / `Slice()` of every column (C09ViewsGen.gen_view_semantics)
                 = cell `i` / `L.n` / all cells of the column of `L` at the same position
     - `tocsv`   the records `ToCSV` hands to the csv writer (C13WriterGen.gen_tocsv_semantics, with
@@ -98,7 +99,11 @@ def typeNameS : CType → Bytes
   | .undef => []
 
 /-- `c.DataType()` of today's source, per stored column in order -/
-def genTypes (P : VFrame) : List (Option Bytes) := P.cols.map (fun c => Gen.dataTypeNames.lookup (pkgOf c.ty))
+def genDataTypes (P : VFrame) : List (Option Bytes) := P.cols.map (fun c => Gen.dataTypeNames.lookup (pkgOf c.ty))
+
+/-- `qf.ColumnTypes()` of today's source (`Gen.columnTypesAst`, the loop of qframe.go) on the stored frame, every column
+answering `DataType()` as today's column package does -/
+def genTypes (P : VFrame) : Option (List Bytes) := C09TypesGen.genColumnTypes (genDataTypes P)
 
 /-- the column selection the harness passes to `ToCSV` (nil for an empty list) -/
 def sel (cols : List Bytes) : Option (List Bytes) := if cols.isEmpty then none else some cols
@@ -121,8 +126,8 @@ structure Observed (P : VFrame) : Prop where
     some (if hasErr then -1 else (P.logical.n : Int))
   /-- `ColumnNames()`: the names of the logical frame in order -/
   names : genColumnNames (P.cols.map (·.name)) = some P.logical.names
-  /-- `DataType()` of every column in order: the types of the logical frame in order -/
-  types : genTypes P = P.logical.cols.map (fun l => some (typeNameS l.ty))
+  /-- `ColumnTypes()`: the names of the types of the logical frame's columns in order -/
+  types : genTypes P = some (P.logical.cols.map (fun l => typeNameS l.ty))
   /-- the typed view of the column at every position: `ItemAt(r)` is cell `r` of the logical column at that position (no
   value — Go panics — for `r ≥ n`), `Len()` is `n`, `Slice()` all its cells in order -/
   views : ∀ (i : Nat) (c : VCol), P.cols[i]? = some c →
@@ -181,10 +186,12 @@ theorem gen_observations_agree (P : VFrame) (h : WF P) : Observed P where
   names := by
     rw [C19SqlWriteGen.gen_columnnames_semantics, C19SqlWriteGen.logical_names]
   types := by
-    simp only [genTypes, VFrame.logical, List.map_map]
-    apply List.map_congr_left
-    intro c hc
-    exact gen_typenames c.ty (h.cols c hc).ty
+    have hd : genDataTypes P = (P.logical.cols.map (fun l => typeNameS l.ty)).map some := by
+      simp only [genDataTypes, VFrame.logical, List.map_map]
+      apply List.map_congr_left
+      intro c hc
+      exact gen_typenames c.ty (h.cols c hc).ty
+    rw [genTypes, hd, C09TypesGen.gen_columntypes_semantics]
   views := view_fields P h
   tocsv := fun fmt cols hdr ferr => C13WriterGen.gen_tocsv_semantics fmt P.logical h.typed h.nodup cols hdr ferr
   tojson := fun fmt => by
@@ -401,7 +408,7 @@ theorem norm_col {a b : LFrame} (h : normF a = normF b) (i : Nat) (x y : LCol) (
 
 /-- **Congruence (partial: `BitExact` frames).** Two well-formed stored frames — derived in any way, with different
 physical rows and different indexes — for which today's `Equals` answers `true`, and which hold no pair of IEEE-equal floats
-of different bits, give IDENTICAL results under every regenerated observer: `Len`, `ColumnNames`, `DataType` per column, every
+of different bits, give IDENTICAL results under every regenerated observer: `Len`, `ColumnNames`, `ColumnTypes`, every
 view's `ItemAt` / `Len` / `Slice`, the records of `ToCSV` for every column selection, the `Write` calls of `ToJSON` under every
 fault pattern, `String()`, the `Exec` calls of `ToSQL` under every configuration and fault pattern, and `Equals` against
 every third frame. EXCLUDED: pairs of frames holding +0.0 against −0.0 or NaNs of different payloads at some position. -/
@@ -422,8 +429,9 @@ theorem gen_equal_frames_observe_equal_partial (P Q : VFrame) (hP : WF P) (hQ : 
   · intro hasErr; rw [hlen]
   · rw [oP.names, oQ.names, ← names_norm, hnorm, names_norm]
   · rw [oP.types, oQ.types]
-    have : (normF P.logical).cols.map (fun l => some (typeNameS l.ty)) =
-        (normF Q.logical).cols.map (fun l => some (typeNameS l.ty)) := by rw [hnorm]
+    congr 1
+    have : (normF P.logical).cols.map (fun l => typeNameS l.ty) =
+        (normF Q.logical).cols.map (fun l => typeNameS l.ty) := by rw [hnorm]
     simpa [normF, normC, List.map_map, Function.comp_def] using this
   · intro i c d hc hd
     obtain ⟨l, hl, _, _, _, h1, h2, h3⟩ := oP.views i c hc
@@ -480,6 +488,7 @@ theorem gen_equal_frames_observe_cellEq (P Q : VFrame) (hP : WF P) (hQ : WF Q)
     simpa [LFrame.names] using this
   refine ⟨fun _ => by rw [hlen], by rw [oP.names, oQ.names, hnames], ?_, ?_, ?_⟩
   · rw [oP.types, oQ.types]
+    congr 1
     apply List.ext_getElem (by simp [hl])
     intro i h1 h2
     have hi : i < P.logical.cols.length := by simpa using h1
